@@ -1,6 +1,6 @@
 use std::{
     io::{self, BufRead},
-    str,
+    mem,
 };
 
 use super::read_line;
@@ -79,13 +79,21 @@ where
 
     const DELIMITER: u8 = b'\t';
     const LINE_FEED: u8 = b'\n';
-    const CARRIAGE_RETURN: char = '\r';
+    const CARRIAGE_RETURN: u8 = b'\r';
 
     let mut r#match = None;
     let mut len = 0;
 
+    // The field is validated as UTF-8 only after it is completely read: a buffer returned by
+    // `fill_buf` can end in the middle of a multibyte character.
+    let mut bytes = mem::take(dst).into_bytes();
+
     loop {
-        let src = reader.fill_buf()?;
+        let src = match reader.fill_buf() {
+            Ok(src) => src,
+            Err(ref e) if e.kind() == io::ErrorKind::Interrupted => continue,
+            Err(e) => return Err(e),
+        };
 
         if r#match.is_some() || src.is_empty() {
             break;
@@ -99,8 +107,7 @@ where
             None => (src, src.len()),
         };
 
-        let s = str::from_utf8(buf).map_err(|e| io::Error::new(io::ErrorKind::InvalidData, e))?;
-        dst.push_str(s);
+        bytes.extend_from_slice(buf);
 
         len += n;
 
@@ -109,9 +116,11 @@ where
 
     let is_eol = matches!(r#match, Some(LINE_FEED));
 
-    if is_eol && dst.ends_with(CARRIAGE_RETURN) {
-        dst.pop();
+    if is_eol && bytes.ends_with(&[CARRIAGE_RETURN]) {
+        bytes.pop();
     }
+
+    *dst = String::from_utf8(bytes).map_err(|e| io::Error::new(io::ErrorKind::InvalidData, e))?;
 
     Ok((len, is_eol))
 }
